@@ -118,6 +118,50 @@ def converse(ctx, prog, rows, where):
     ctx.floor('T-TOKEN.converse', 'variants', nvar, 25 + (1 if prog.feature('half') else 0))
 
 
+def tokenizer_rules(ctx, prog):
+    """Tokenizer::token drains the decoder on every error (so the iterator ends after an error, whoever owns the decoder);
+    next() maps exactly the end-of-input class to None"""
+    ctx.rules_run.append('T-TOKENIZER: Tokenizer::token moves the position to the end of the input on every error path and never on success; next() maps exactly the end-of-input class to None')
+    tok = prog.one("minicbor::decode::tokenizer::Tokenizer::<'a, 'b>::token")
+    if tok is None:
+        ctx.fail_closed('T-TOKENIZER', 'Tokenizer::token not found')
+    else:
+        body = tok['body']
+        cfg = mir.CFG(body)
+        sets = [bi for bi, t in mir.iter_calls(body) if (mir.callee_path(t) or '').endswith("Decoder::<'b>::set_position")]
+        lens = [bi for bi, t in mir.iter_calls(body) if (mir.callee_path(t) or '').endswith('::len')]
+        inputs = [bi for bi, t in mir.iter_calls(body) if (mir.callee_path(t) or '').endswith("Decoder::<'b>::input")]
+        # the Err arm: blocks reachable only through the discriminant==1 edge of the decode result
+        decs = [bi for bi, t in mir.iter_calls(body) if 'decode' in (mir.callee_path(t) or '').split('::')[-1]]
+        sw = [bi for bi, b in enumerate(body['blocks']) if b['t']['k'] == 'switch']
+        good = bool(sets and lens and inputs and decs and sw)
+        if good:
+            s0 = body['blocks'][sw[0]]['t']
+            err_t = [v[1] for v in s0['vs'] if v[0] == 1]
+            ok_t = [v[1] for v in s0['vs'] if v[0] == 0]
+            et = err_t[0] if err_t else s0['o']
+            ot = ok_t[0] if ok_t else s0['o']
+            on_err = all(cfg.dominates(et, b) for b in sets)
+            ok_reach = cfg.reachable_from(ot)
+            on_ok = any(b in ok_reach for b in sets)
+            err_rets = [x for x in cfg.reachable_from(et, avoid=sets) if body['blocks'][x]['t']['k'] == 'return']
+            if on_err and not on_ok and not err_rets:
+                ctx.ok('T-TOKENIZER', 'token: drain dominates every error return, absent from the success path')
+            else:
+                ctx.violation('T-TOKENIZER', 'drain', 'Tokenizer::token: the drain (set_position(input().len())) %s' % ('is reachable on the success path' if on_ok else 'does not cover every error return: after an error the iterator could yield again from the same bytes'), mir.loc(tok['sp']))
+        else:
+            ctx.violation('T-TOKENIZER', 'drain-shape', 'Tokenizer::token no longer drains the decoder with set_position(input().len()) on errors', mir.loc(tok['sp']))
+    nxt = prog.one("<minicbor::decode::tokenizer::Tokenizer<'a, 'b> as std::iter::Iterator>::next")
+    if nxt is None:
+        ctx.fail_closed('T-TOKENIZER', 'Tokenizer::next not found')
+    else:
+        calls = [mir.callee_path(t) for bi, t in mir.iter_calls(nxt['body'])]
+        if any(c and c.endswith('Error::is_end_of_input') for c in calls) and any(c and c.endswith('::token') for c in calls):
+            ctx.ok('T-TOKENIZER', 'next: None on is_end_of_input')
+        else:
+            ctx.violation('T-TOKENIZER', 'next', 'Tokenizer::next does not classify errors with is_end_of_input (callees %s)' % [c.split('::')[-1] for c in calls if c], mir.loc(nxt['sp']))
+
+
 def run(ctx):
     prog = load.program('core-full')
     ctx.rules_run.append('T-TOKEN: for every cell of Token::decode the token is re-encoded by abstract interpretation of Token::encode: the bytes are the preferred serialisation of the same head (identical for preferred input); >= 1 byte per token')
@@ -240,45 +284,6 @@ def run(ctx):
     missing = set(v['name'] for v in prog.adts[TOKEN.split('<')[0]]['variants']) - seen_variants
     if missing:
         ctx.violation('T-TOKEN', 'variants', 'no input byte produces the token variant(s) %s' % sorted(missing), where)
-    # tokenizer: drain on error, None exactly at end of input
-    ctx.rules_run.append('T-TOKENIZER: Tokenizer::token moves the position to the end of the input on every error path and never on success; next() maps exactly the end-of-input class to None')
-    tok = prog.one("minicbor::decode::tokenizer::Tokenizer::<'a, 'b>::token")
-    if tok is None:
-        ctx.fail_closed('T-TOKENIZER', 'Tokenizer::token not found')
-    else:
-        body = tok['body']
-        cfg = mir.CFG(body)
-        sets = [bi for bi, t in mir.iter_calls(body) if (mir.callee_path(t) or '').endswith("Decoder::<'b>::set_position")]
-        lens = [bi for bi, t in mir.iter_calls(body) if (mir.callee_path(t) or '').endswith('::len')]
-        inputs = [bi for bi, t in mir.iter_calls(body) if (mir.callee_path(t) or '').endswith("Decoder::<'b>::input")]
-        # the Err arm: blocks reachable only through the discriminant==1 edge of the decode result
-        decs = [bi for bi, t in mir.iter_calls(body) if 'decode' in (mir.callee_path(t) or '').split('::')[-1]]
-        sw = [bi for bi, b in enumerate(body['blocks']) if b['t']['k'] == 'switch']
-        good = bool(sets and lens and inputs and decs and sw)
-        if good:
-            s0 = body['blocks'][sw[0]]['t']
-            err_t = [v[1] for v in s0['vs'] if v[0] == 1]
-            ok_t = [v[1] for v in s0['vs'] if v[0] == 0]
-            et = err_t[0] if err_t else s0['o']
-            ot = ok_t[0] if ok_t else s0['o']
-            on_err = all(cfg.dominates(et, b) for b in sets)
-            ok_reach = cfg.reachable_from(ot)
-            on_ok = any(b in ok_reach for b in sets)
-            err_rets = [x for x in cfg.reachable_from(et, avoid=sets) if body['blocks'][x]['t']['k'] == 'return']
-            if on_err and not on_ok and not err_rets:
-                ctx.ok('T-TOKENIZER', 'token: drain dominates every error return, absent from the success path')
-            else:
-                ctx.violation('T-TOKENIZER', 'drain', 'Tokenizer::token: the drain (set_position(input().len())) %s' % ('is reachable on the success path' if on_ok else 'does not cover every error return: after an error the iterator could yield again from the same bytes'), mir.loc(tok['sp']))
-        else:
-            ctx.violation('T-TOKENIZER', 'drain-shape', 'Tokenizer::token no longer drains the decoder with set_position(input().len()) on errors', mir.loc(tok['sp']))
-    nxt = prog.one("<minicbor::decode::tokenizer::Tokenizer<'a, 'b> as std::iter::Iterator>::next")
-    if nxt is None:
-        ctx.fail_closed('T-TOKENIZER', 'Tokenizer::next not found')
-    else:
-        calls = [mir.callee_path(t) for bi, t in mir.iter_calls(nxt['body'])]
-        if any(c and c.endswith('Error::is_end_of_input') for c in calls) and any(c and c.endswith('::token') for c in calls):
-            ctx.ok('T-TOKENIZER', 'next: None on is_end_of_input')
-        else:
-            ctx.violation('T-TOKENIZER', 'next', 'Tokenizer::next does not classify errors with is_end_of_input (callees %s)' % [c.split('::')[-1] for c in calls if c], mir.loc(nxt['sp']))
+    tokenizer_rules(ctx, prog)
     # skip_byte only on one-byte items: every row that used skip_byte consumed exactly one byte and is a one-byte head (checked above via `one`)
     return 'Token::decode (%d cells) composed with Token::encode by abstract interpretation; tokenizer drain/termination rules.' % n
